@@ -33,6 +33,7 @@ type Sym struct {
 	Fields map[string]*Sym // for struct: explicit field values
 	Base   *Sym            // for struct: the value it was copied from (nil = zero value)
 	T      types.Type
+	NonNil bool // known never to be nil (a sentinel error variable)
 }
 
 func (s *Sym) String() string {
@@ -84,7 +85,29 @@ type DTConfig struct {
 	Names map[ssa.Value]string
 	// MaxLeaves bounds the exploration (default 4096).
 	MaxLeaves int
-	// InlineBound: module callees with bodies are NOT inlined; calls are atoms.
+	// Inline decides which static callees are interpreted in place (bounded depth 3, no recursion)
+	// instead of being recorded as atoms. nil = InlineNewHelpers.
+	Inline func(caller, callee *ssa.Function) bool
+}
+
+// InlineNewHelpers inlines same-package callees that did not exist when the rules were written (see
+// known_funcs.txt): a freshly extracted helper is looked through, helpers the rules know stay atoms.
+func InlineNewHelpers(caller, callee *ssa.Function) bool {
+	if callee.Package() == nil || caller.Package() != callee.Package() || len(callee.Blocks) == 0 {
+		return false
+	}
+	top := callee
+	for top.Parent() != nil {
+		top = top.Parent()
+	}
+	return !KnownFunc(FuncQName(top))
+}
+
+type dframe struct {
+	call   *ssa.Call
+	block  *ssa.BasicBlock
+	blocks []int
+	fn     *ssa.Function
 }
 
 type dstate struct {
@@ -96,6 +119,7 @@ type dstate struct {
 	recs   []CallRec
 	ncall  map[string]int
 	blocks []int
+	stack  []dframe
 }
 
 func (st *dstate) clone() *dstate {
@@ -130,6 +154,7 @@ func (st *dstate) clone() *dstate {
 		n.ncall[k] = v
 	}
 	n.blocks = append([]int{}, st.blocks...)
+	n.stack = append([]dframe{}, st.stack...)
 	return n
 }
 
@@ -232,6 +257,9 @@ func (d *dtree) run(st *dstate, b *ssa.BasicBlock, pred *ssa.BasicBlock) {
 			case *ssa.Jump:
 				next = b.Succs[0]
 			case *ssa.Return:
+				if d.popFrame(st, x) {
+					return
+				}
 				l := &Leaf{RetPos: x.Pos()}
 				for _, r := range x.Results {
 					l.Returns = append(l.Returns, d.describe(st, d.eval(st, r)))
@@ -317,6 +345,29 @@ func (d *dtree) exec(st *dstate, in ssa.Instruction, b *ssa.BasicBlock) bool {
 		st.calls = append(st.calls, fmt.Sprintf("mapupdate %s[%s]=%s", d.eval(st, x.Map), d.eval(st, x.Key), d.eval(st, x.Value)))
 	case *ssa.Send:
 		st.calls = append(st.calls, fmt.Sprintf("send %s<-%s", d.eval(st, x.Chan), d.eval(st, x.X)))
+	case *ssa.Call:
+		if cal := x.Call.StaticCallee(); cal != nil && len(cal.Blocks) > 0 && len(st.stack) < 3 && len(cal.Params) == len(x.Call.Args) {
+			inline := d.cfg.Inline
+			if inline == nil {
+				inline = InlineNewHelpers
+			}
+			onStack := cal == d.fn
+			for _, fr := range st.stack {
+				if fr.fn == cal {
+					onStack = true
+				}
+			}
+			if !onStack && inline(d.fn, cal) {
+				for i, p := range cal.Params {
+					st.env[p] = d.eval(st, x.Call.Args[i])
+				}
+				st.stack = append(st.stack, dframe{call: x, block: b, blocks: st.blocks, fn: cal})
+				st.blocks = nil
+				d.run(st, cal.Blocks[0], nil)
+				return true
+			}
+		}
+		st.env[x] = d.evalInstr(st, x)
 	case ssa.Value:
 		// domain fork: BinOp comparing a domain atom with a constant
 		if bo, ok := x.(*ssa.BinOp); ok && (bo.Op == token.EQL || bo.Op == token.NEQ) {
@@ -349,12 +400,41 @@ func (d *dtree) exec(st *dstate, in ssa.Instruction, b *ssa.BasicBlock) bool {
 
 // resume continues interpreting block b starting at instruction `from`.
 func (d *dtree) resume(st *dstate, b *ssa.BasicBlock, from ssa.Instruction) {
+	d.resumeFrom(st, b, from, false)
+}
+
+// popFrame: a return inside an inlined callee hands its results to the call and continues the caller.
+func (d *dtree) popFrame(st *dstate, x *ssa.Return) bool {
+	if len(st.stack) == 0 {
+		return false
+	}
+	fr := st.stack[len(st.stack)-1]
+	st.stack = st.stack[:len(st.stack)-1]
+	var res *Sym
+	if len(x.Results) == 1 {
+		res = d.eval(st, x.Results[0])
+	} else {
+		res = &Sym{K: "tuple", S: "tuple " + fr.call.Name(), Fields: map[string]*Sym{}}
+		for i, r := range x.Results {
+			res.Fields[fmt.Sprint(i)] = d.eval(st, r)
+		}
+	}
+	st.env[fr.call] = res
+	st.blocks = fr.blocks
+	d.resumeFrom(st, fr.block, fr.call, true)
+	return true
+}
+
+func (d *dtree) resumeFrom(st *dstate, b *ssa.BasicBlock, from ssa.Instruction, after bool) {
 	// emulate run() for the rest of this block, then continue normally
 	started := false
 	var next *ssa.BasicBlock
 	for _, in := range b.Instrs {
 		if in == from {
 			started = true
+			if after {
+				continue
+			}
 		}
 		if !started {
 			continue
@@ -369,6 +449,9 @@ func (d *dtree) resume(st *dstate, b *ssa.BasicBlock, from ssa.Instruction) {
 		case *ssa.Jump:
 			next = b.Succs[0]
 		case *ssa.Return:
+			if d.popFrame(st, x) {
+				return
+			}
 			l := &Leaf{RetPos: x.Pos()}
 			for _, r := range x.Results {
 				l.Returns = append(l.Returns, d.describe(st, d.eval(st, r)))
@@ -605,6 +688,11 @@ func (d *dtree) evalInstr(st *dstate, v ssa.Value) *Sym {
 		o := d.eval(st, x.X)
 		switch x.Op {
 		case token.MUL:
+			if g, ok := x.X.(*ssa.Global); ok && GlobalAlwaysNonNil(g) {
+				v := *d.load(st, o)
+				v.NonNil = true
+				return &v
+			}
 			return d.load(st, o)
 		case token.NOT:
 			if o.B != nil {
@@ -651,6 +739,11 @@ func (d *dtree) evalInstr(st *dstate, v ssa.Value) *Sym {
 		return d.eval(st, x.X)
 	case *ssa.Extract:
 		t := d.eval(st, x.Tuple)
+		if t.K == "tuple" {
+			if f, ok := t.Fields[fmt.Sprint(x.Index)]; ok {
+				return f
+			}
+		}
 		s := &Sym{K: "atom", S: fmt.Sprintf("%s#%d", t.S, x.Index)}
 		return s
 	case *ssa.TypeAssert:
@@ -767,6 +860,9 @@ func (d *dtree) binop(st *dstate, x *ssa.BinOp) *Sym {
 		eq := x.Op == token.EQL
 		if l.S == r.S && l.K != "unknown" {
 			return boolSym(eq)
+		}
+		if (l.K == "nil" && r.NonNil) || (r.K == "nil" && l.NonNil) {
+			return boolSym(!eq)
 		}
 		// nil vs a fresh local object
 		if (l.K == "nil" && r.K == "ptr" && r.Cell != nil) || (r.K == "nil" && l.K == "ptr" && l.Cell != nil) {
